@@ -16,8 +16,8 @@ def sh(cmd, cwd=None, timeout=900):
 def demo(tree, d, tag):
     src = open(os.path.join(d, "demo.c")).read()
     src = re.sub(r"\\\n\s*\*?\s*", " ", src)   # join continuation lines of the build command
-    m = re.search(r"^\s*\*?\s*((?:gcc|cc|clang)\b.*)$", src, re.M)
-    cmd = m.group(1).strip()
+    m = re.search(r"^\s*(?:/\*)?\s*\*?\s*(?:TREE=\S+;\s*)?((?:gcc|cc|clang)\b.*)$", src, re.M)
+    cmd = re.sub(r"\s*\*/\s*$", "", m.group(1).strip())
     work = os.path.join(WT, "demo_" + tag)
     shutil.rmtree(work, ignore_errors=True); os.makedirs(work)
     shutil.copy(os.path.join(d, "demo.c"), work)
